@@ -22,10 +22,11 @@ RULE = ("case = (model type, start parameters, maturity, target Black-Scholes vo
         "strictly inside the interval / history with >= 2 assignments; distinct = distinct seed")
 ASSUMPTIONS = ["calibration problems are pre-screened by the harness (COS prices at the interval ends bracket the target)",
                "repricing tolerance 1e-6 x spot (brentq xtol 2e-12 on the parameter)"]
-REQUIRED_COUNTERS = ["default_calibrations", "parameter_calibrations", "repricing_checks", "input_untouched_checks", "history_rebuilds",
+REQUIRED_COUNTERS = ["default_calibrations", "parameter_calibrations", "repricing_checks", "input_untouched_checks", "history_rebuilds", "short_maturity_calibrations",
                      "constraint_probes"]
 MIN_NONTRIVIAL = {"quick": 40, "thorough": 500}
 THOROUGH_ROUNDS = 20      # the thorough tier runs the generators this many times (different seeds)
+REPRICE_TOL = 1e-8        # relative to the spot: the calibrated value reprices the target within the root-finder tolerance (see DESIGN)
 SHARD_TIMEOUT = {"quick": 900, "thorough": 7200}
 FAMS = ["HEM", "MERTON", "VG", "CGMY"]
 
@@ -34,6 +35,9 @@ def gen_cases(tier, seed):
     rng = np.random.default_rng(seed + 2000)
     n = 32 if tier == "quick" else 400
     cases = [{"kind": "calib", "seed": int(rng.integers(2**31)), "family": FAMS[i % 4], "mode": ["default", "atm", "generic"][i % 3]} for i in range(n)]
+    # maturities of days to weeks (jump-diffusions: the density is smooth, the default COS expansion still converges)
+    cases += [{"kind": "calib", "seed": int(rng.integers(2**31)), "family": ["HEM", "MERTON"][i % 2], "mode": ["default", "atm", "generic"][i % 3], "short": True}
+              for i in range(8 if tier == "quick" else 60)]
     cases += [{"kind": "history", "seed": int(rng.integers(2**31)), "family": (FAMS + ["BS"])[i % 5]} for i in range(n)]
     cases += [{"kind": "constraints", "seed": int(rng.integers(2**31))} for _ in range(4 if tier == "quick" else 40)]
     return cases
@@ -80,6 +84,16 @@ def _calib(case, R):
     rng = np.random.default_rng(case["seed"])
     fam = case["family"]
     spec, T = _box_spec(rng, fam)
+    if case.get("short"):
+        # days to weeks, little diffusion and large jumps: the density is narrow relative to the range of the cosine expansion
+        T = W.r6(W._logu(rng, 0.002, 0.006))
+        spec["params"]["sigma"] = 0.1
+        if fam == "MERTON":
+            spec["params"]["sigma_j"] = W.r6(rng.uniform(0.2, 0.25))
+            spec["params"]["intensity"] = W.r6(rng.uniform(2.0, 5.0))
+        else:
+            spec["params"]["eta1"], spec["params"]["eta2"] = W.r6(rng.uniform(8, 12)), W.r6(rng.uniform(5, 8))
+        R.hit("short_maturity_calibrations")
     model = W.build_model(spec)
     S = spec["spot"]
     conf = U.default_calibration[model.model_type]
@@ -101,6 +115,8 @@ def _calib(case, R):
         inner = (0.3, 1.5) if spec["params"]["y"] <= 1 else (0.3, 1.0)
     else:
         inner = {"HEM": (0.1, 0.4), "MERTON": (0.0, 0.15), "VG": (0.1, 0.4)}[fam]
+    if case.get("short") and fam == "MERTON":
+        inner = (0.0, 0.5)      # large mean jumps: together with the short maturity the cosine expansion needs its default number of terms
     mode = case["mode"]
     if mode == "generic":
         strike = S * float(rng.uniform(0.9, 1.1))
@@ -126,7 +142,7 @@ def _calib(case, R):
         if not (a_ <= val <= b_):
             R.violation("calibrated-value-outside-interval", f"{fam}: {par} = {val!r} outside [{a_}, {b_}]", wit)
         rep = price_with(val, strike, ptype)
-        if not (abs(rep - market) <= 1e-6 * S):
+        if not (abs(rep - market) <= REPRICE_TOL * S):
             R.violation("calibrated-model-does-not-reprice", f"{fam}: {par} = {val!r} reprices the target at {rep!r}, market {market!r}", wit)
         R.hit("input_untouched_checks")
         if not _same_snapshot(snap, _snapshot(model)):
@@ -173,13 +189,13 @@ def _calib(case, R):
     if not (lo <= val <= hi):
         R.violation("calibrated-value-outside-interval", f"{fam}: {par} = {val!r} outside [{lo}, {hi}]", wit)
     rep = price_with(val, S)
-    if not (abs(rep - market) <= 1e-6 * S):
+    if not (abs(rep - market) <= REPRICE_TOL * S):
         R.violation("calibrated-model-does-not-reprice", f"{fam}: {par} = {val!r}: ATM call {rep!r}, Black-Scholes target {market!r} (vol {bs_sigma!r})", wit)
     if new_model is not None:
         if type(new_model) is not type(model):
             R.violation("default-calibration-returns-another-type", f"{type(new_model).__name__} for a {type(model).__name__}", wit)
         got = float(np.asarray(COSPricer(new_model).call(np.array([S]), T)).reshape(-1)[0])
-        if not (abs(got - market) <= 1e-6 * S):
+        if not (abs(got - market) <= REPRICE_TOL * S):
             R.violation("default-calibration-model-does-not-reprice", f"{fam}: returned model prices the ATM call at {got!r}, target {market!r}", wit)
         if new_model.levy_model.parameters is model.levy_model.parameters:
             R.violation("default-calibration-aliases-the-input-parameters", f"{fam}: the returned model shares the parameter object of the input", wit)
